@@ -741,6 +741,7 @@ func (v *FnVC) ret(x *ssa.Return) {
 		k++
 		for j, c := range v.flatten(cl.E) {
 			t := v.specBoolE(c, env, cl)
+			v.behavClause = cl.Behav != ""
 			v.oblige("ensures", v.clauseLabel(cl, k-1, j)+site, t, cl.Props, true, c.String(), x.Pos())
 		}
 	}
@@ -756,6 +757,7 @@ func (v *FnVC) panicInstr(x *ssa.Panic) {
 			allowed = append(allowed, v.specBool(cl.E, v.initEnv, cl))
 		}
 	}
+	v.behavClause = false
 	v.oblige("unreachable-panic", strconv.Itoa(v.panicCnt), or(allowed...), nil, !v.fc.Partial, "explicit panic must be unreachable (or allowed by panics-when)", x.Pos())
 }
 
